@@ -117,6 +117,12 @@ Theorem C19_buffer_bound : forall max valid chunks,
   buffered r <= max /\ buffered r <= len (concat chunks) /\ r_consumed r <= len (concat chunks).
 Proof. exact buffer_bound. Qed.
 
+(* no stalling: a reader that has not hit an error has consumed every byte offered *)
+Theorem C19_reader_consumes_all : forall max valid chunks,
+  r_st (fst (feed_all max valid init chunks)) <> RDead ->
+  r_consumed (fst (feed_all max valid init chunks)) = len (concat chunks).
+Proof. exact reader_consumes_all. Qed.
+
 (* whatever arrives and however fragmented: the session's outputs are the one-shot parse
    of the stream: the valid frames in order, then at most one error, nothing after it *)
 Theorem C19_reader_refines_parse : forall max valid chunks,
@@ -225,6 +231,7 @@ Print Assumptions C19_fragmentation_run.
 Print Assumptions C19_frame_bound.
 Print Assumptions C19_frame_bound_nothing_buffered.
 Print Assumptions C19_buffer_bound.
+Print Assumptions C19_reader_consumes_all.
 Print Assumptions C19_reader_refines_parse.
 Print Assumptions C19_valid_stream.
 Print Assumptions C19_truncated_stream.
